@@ -9,7 +9,7 @@ LEAN_TARGETS = ['LLTD.Props.C13']
 VARIANT = 'plain'
 RULE = ('band_update_stats / band_choose_hello_time on band states set through the public struct: r dense at '
         '{0..20, 9768..9772, 65535..65537, 2^k and 2^k±1, 2^32-1} x prior Ni x begun, plus seeded random r; thorough adds '
-        'a strided sweep of the whole 32-bit range; plus band_on_hello_received at the 8/16/32-bit boundaries of the counter (every Hello heard adds exactly one); plus automata_tick on band states whose Hello and block deadlines expire together or apart (the block end inside the tick); non-trivial = Ni changed; distinct = distinct (r, begun, Ni before) triple')
+        'a strided sweep of the whole 32-bit range; plus band_on_hello_received at the 8/16/32-bit boundaries of the counter (every Hello heard adds exactly one); plus automata_tick on band states whose Hello and block deadlines expire together or apart (the block end inside the tick), also with the clock moving on while the tick runs (`tickj`); non-trivial = Ni changed; distinct = distinct (r, begun, Ni before) triple')
 ASSUMPTIONS = ['time stamps stay below 2^63 ms (no uint64_t wrap-around of now + interval)']
 project = ident
 
@@ -74,6 +74,9 @@ def cases(rng, tier, X):
             bts = rng.choice([0, 1, now - 1, now, now + 1, now + 200])
             ops.append('band set 1 %d %d %d %d %d' % (ni, r, rng.choice([1, 1, 0]), max(hts, 0), max(bts, 0)))
             ops.append('tick 0 1 0 %s' % rng.choice(['wired', 'wired', 'nolast', 'none']))
+            if rng.random() < 0.4:
+                # the clock moves on while the tick runs (the Hello transmit blocks, the log sink is slow)
+                ops[-1] = ops[-1].replace('tick ', 'tickj ') + ' %d %d' % (rng.choice([1, 2]), rng.choice([1, 2, 40, 120, 1000]))
             if rng.random() < 0.5:
                 ops.append('band heard 1')
         out.append(('tick%d' % k, ops))
